@@ -44,6 +44,7 @@ class StubFSM:
         self.active = True
         self.crew_wait = False
         self.archive_calls = 0
+        self.archiving = False
         self.state = 'running'
 
     def is_pipeline_active(self):
@@ -53,7 +54,10 @@ class StubFSM:
         return self.crew_wait
 
     def archiving_trigger(self):
+        # the real machine leaves 'running': not active until the archive is done
         self.archive_calls += 1
+        self.active = False
+        self.archiving = True
 
 
 _installed = {}
@@ -154,6 +158,7 @@ class PipeWorld:
         self.nodes = {}
         self.next_calls = 0
         self.next_total = 0
+        self.monotone_next = False
         self._patch()
         self.boot()
 
@@ -171,6 +176,8 @@ class PipeWorld:
             def nxt():
                 # max(stored run ids) + 1: grows with every run that was started
                 w.next_calls += 1
+                if not w.monotone_next:
+                    return w.store_next     # nothing is stored in this tier
                 w.next_total += 1
                 return w.store_next + w.next_total - 1
 
@@ -347,7 +354,7 @@ class PipeWorld:
         return (nodes, s['que'], s['per'], s['paused'], s['jobs'],
                 tuple((m.jobid, m.target, m.runid) for m in s['cluster']),
                 tuple(sorted(s['busy'])), s['archive'], s['workers'], inflight,
-                s['active'], s['crew_wait'], s['rev'], s.get('nexts', 0),
+                s['active'], s['crew_wait'], s['rev'],
                 None if s.get('timed') is None else tuple(sorted(s['timed'].items())))
 
     def _conn_of(self, hand):
@@ -430,6 +437,12 @@ class PipeWorld:
         before = [n.tag for n in farm._jobs]
         farm.dispatch()
         self.collect()
+        if getattr(self.fsm, 'archiving', False):
+            # the archive completes (FSM._archive_done): back to running
+            self.fsm.archiving = False
+            self.fsm.active = True
+            farm.ARCHIVE = False
+            self.obs.append(('archived',))
         if self.mode == 'ample':
             for h in list(farm._workers):
                 self._conn_of(h).lose()
@@ -491,6 +504,7 @@ class PipeWorld:
             # rebuild the schedule
             was = self.fsm.active
             self.fsm.active = False
+            self.obs.append(('reload-workers', len(farm._workers)))
             farm.notify_all()
             self.collect()
             farm.clear()
